@@ -372,7 +372,7 @@ def rule_tail(ctx):
 
 
 def rule_rsv1(ctx):
-    ctx.rule("C12.7-rsv1-and-donotcompress-gating")
+    ctx.rule("C12.6-rsv1-and-donotcompress-gating")
     an = get_analysis(ctx)
     wsp = ctx.program.cls(WSP)
     sm = wsp.methods["sendMessage"]
